@@ -29,8 +29,9 @@ use crate::{
 };
 
 pub fn run(ctx: &mut Ctx) {
-    let corpus = Corpus::load(&ctx.repo);
-    if corpus.files.is_empty() {
+    // reading megabytes of bundled maps is slow under Miri and that leg does not use them
+    let corpus = if ctx.leg == "miri" { Corpus { files: Vec::new() } } else { Corpus::load(&ctx.repo) };
+    if corpus.files.is_empty() && ctx.leg != "miri" {
         ctx.inconclusive(format!("no bundled maps found under {}/resources", ctx.repo));
     }
     let tiny = ctx.leg == "miri";
@@ -48,18 +49,36 @@ pub fn run(ctx: &mut Ctx) {
 
     // stream 0: random hostile inputs
     let n = ctx.n(160_000, 4_000_000);
+    if tiny {
+        // Miri leg: inputs are generated natively (emit mode) and only executed under Miri
+        let inputs: Vec<Vec<u8>> = match ctx.read_inputs() {
+            Some(v) => v,
+            None => (0..n).map(|i| small_input(&mut ctx.rng_for(0, i)).bytes).collect(),
+        };
+        if ctx.emit_inputs(&inputs) {
+            return;
+        }
+        for (i, bytes) in inputs.into_iter().enumerate() {
+            let inp = Input { bytes, class: "small-unsafe-biased", enc: "mixed" };
+            one_case(ctx, 0, i as u64, &inp);
+            if ctx.out_of_time() {
+                break;
+            }
+        }
+        return;
+    }
     for i in 0..n {
         if ctx.only.is_some_and(|k| k != i) {
             continue;
         }
         let mut r = ctx.rng_for(0, i);
-        let inp = if tiny { small_input(&mut r) } else { hostile_input(&mut r, &corpus, max_len) };
+        let inp = hostile_input(&mut r, &corpus, max_len);
         one_case(ctx, 0, i, &inp);
         if ctx.out_of_time() {
             break;
         }
     }
-    if ctx.only.is_some() || tiny {
+    if ctx.only.is_some() {
         return;
     }
 
@@ -205,12 +224,19 @@ fn one_case(ctx: &mut Ctx, stream: u64, index: u64, inp: &Input) {
     let mut nontrivial = false;
     let tag = stream << 56 | index;
     ctx.case(tag, bytes, |ctx| {
-        let trace = dec!(ctx, tag, bytes, Trace, "Recorder");
-        nontrivial = trace.as_ref().is_some_and(|t| !t.calls.is_empty());
+        // the Miri leg keeps harness-side work minimal: the full decoder reaches the code of all
+        // section parsers; the other eight types are added on every 4th case only
+        let all = !light || index % 4 == 0;
+        if all {
+            let trace = dec!(ctx, tag, bytes, Trace, "Recorder");
+            nontrivial = trace.as_ref().is_some_and(|t| !t.calls.is_empty());
+        } else {
+            nontrivial = true;
+        }
         let map = dec!(ctx, tag, bytes, Beatmap, "Beatmap");
-        let _ = dec!(ctx, tag, bytes, HitObjects, "HitObjects");
-        let _ = dec!(ctx, tag, bytes, TimingPoints, "TimingPoints");
-        if !light || index % 4 == 0 {
+        if all {
+            let _ = dec!(ctx, tag, bytes, HitObjects, "HitObjects");
+            let _ = dec!(ctx, tag, bytes, TimingPoints, "TimingPoints");
             let _ = dec!(ctx, tag, bytes, General, "General");
             let _ = dec!(ctx, tag, bytes, Editor, "Editor");
             let _ = dec!(ctx, tag, bytes, Metadata, "Metadata");
@@ -218,7 +244,7 @@ fn one_case(ctx: &mut Ctx, stream: u64, index: u64, inp: &Input) {
             let _ = dec!(ctx, tag, bytes, Events, "Events");
             let _ = dec!(ctx, tag, bytes, Colors, "Colors");
         }
-        if let Ok(s) = std::str::from_utf8(bytes) {
+        if let (true, Ok(s)) = (all, std::str::from_utf8(bytes)) {
             match rosu_map::from_str::<Beatmap>(s) {
                 Ok(_) => ctx.count("from_str_ok"),
                 Err(e) => ctx.violation("err_from_memory", format!("from_str::<Beatmap> returned Err({e:?})"), tag, bytes),
@@ -252,6 +278,9 @@ fn one_case(ctx: &mut Ctx, stream: u64, index: u64, inp: &Input) {
         }
         if std::str::from_utf8(&out).is_err() {
             ctx.violation("encode_not_utf8", "encoder output is not valid UTF-8".into(), tag, bytes);
+        }
+        if light {
+            return;
         }
         match map.encode_to_string() {
             Ok(s) => {
